@@ -807,6 +807,9 @@ Proof.
   - apply (sib_ok_of ks [] [] U). intros t [].
   - intros y u. apply redef_targets_spec.
   - intros u Hu. cbn [app_items]. apply redef_targets_src. exact Hu.
+  - cbn [app_items]. apply redefiner_not_target.
+    + apply (sib_ok_of ks [] [] U). intros t [].
+    + rewrite kid_ids_of. apply NoDup_map_name_id. apply nodup_strs_NoDup. exact ND.
 Qed.
 
 Lemma is_rok_inv : forall (T : Type) (r : R T), is_rok r = true -> exists v, r = ROk v.
